@@ -26,6 +26,16 @@ sys.path.insert(0, str(__import__("pathlib").Path(__file__).resolve().parent))
 from proto_common import *  # noqa
 
 
+def _pidns_ok():
+    try:
+        return subprocess.run(["unshare", "--pid", "--fork", "--mount-proc", "true"], capture_output=True, timeout=20).returncode == 0
+    except Exception:
+        return False
+
+
+PIDNS = _pidns_ok()
+
+
 def crash_points(tier, rng, ref_events):
     """(label, gate or None, wall-clock fraction or None, initial linker state, garble flags)"""
     counts = {}
@@ -50,6 +60,12 @@ def crash_points(tier, rng, ref_events):
     ev("pkgcache-put", counts.get("pkgcache-put", 1))
     ev("asmnames-put", counts.get("asmnames-put", 1))
     ev("go-done", 1)
+    # with -debugdir: the ownership marker of the target must survive the kill, or the rerun refuses the directory
+    ev("compile-start", counts.get("compile-start", 2) // 2 + 1, ("cur", "cur"), ["-debugdir=DBG"])
+    # killed build and rerun each in a fresh PID namespace: the rerun's processes get the PIDs the killed ones had
+    # (containers, PID wrap-around): nothing left behind may be keyed by a PID
+    if PIDNS:
+        ev("compile-start", counts.get("compile-start", 2) // 3 + 1, ("cur", "cur"), ["PIDNS"])
     if tier == "thorough":
         ev("link-lock-acquired", 1)
         ev("link-unlock", 1, ("old", "none"))
@@ -133,8 +149,14 @@ def main(tier, seed):
         gatedir = root / "gate"
         gatedir.mkdir()
         trace = root / "trace.ndjson"
+        pidns = "PIDNS" in gflags
+        gflags = [g for g in gflags if g != "PIDNS"]
         gf = [g.replace("DBG", str(root / "dbg")) for g in gflags]
         cmd = [str(garble)] + gf + ["build", "-o", str(root / "prog"), "."]
+        if pidns:
+            # PID 1 of the namespace is a shell (signals sent to init from inside its namespace are ignored);
+            # garble is started in its own session, so the gate's kill -9 of the process group takes all of it
+            cmd = ["unshare", "--pid", "--fork", "--mount-proc", "--kill-child", "bash", "-c", 'setsid "$@" & wait $!', "bash"] + cmd
         env = sb.env({"GARBLE_VERIF_TRACE": str(trace), "GARBLE_VERIF_GATE_DIR": str(gatedir), "GARBLE_VERIF_ID": "crashed"})
         if gate:
             env["GARBLE_VERIF_GATE"] = gate
